@@ -88,13 +88,20 @@ Definition sibling_refs (E:env) (self vshape:term) : list term :=
 Definition Zle_opt (a:option Z) (n:nat) (cmp : Z -> Z -> bool) : bool :=
   match a with Some z => cmp z (Z.of_nat n) | None => false end.
 
+(* The recursion back-out heuristic is a parameter, so that every invariant below is
+   proved for any such heuristic and the real one can be compared with "never back out". *)
+Definition trig_t := list pentry -> term -> ckind -> option (list term).
+
+Section WithTriggers.
+Variable trig : trig_t.
+
 Definition evalc (nested:nested_t) (g:graph) (E:env) (s:shape) (fvs:fvs_t) (ep:list pentry) (c:comp)
   : res cres :=
   match c with
   | CLeaf l =>
       Ok (reported (flat_map (fun fv => map (fun b => mk s (leaf_comp l) (fst fv) b []) (leaf_bad g l (fst fv) (snd fv))) fvs))
   | CNot refs =>
-      let pr := recursion_triggers ep (sid s) KNot in
+      let pr := trig ep (sid s) KNot in
       bind (concatM (map (fun r =>
               match lookup E r with
               | None => Err Reportable
@@ -133,7 +140,7 @@ Definition evalc (nested:nested_t) (g:graph) (E:env) (s:shape) (fvs:fvs_t) (ep:l
            (fun rs => Ok (reported rs))
   | CNode refs =>
       if value_count fvs <? 1 then Ok (true, []) else
-      let pr := recursion_triggers ep (sid s) KNode in
+      let pr := trig ep (sid s) KNode in
       bind (concatM (map (fun r =>
               match lookup E r with
               | None => Err Reportable
@@ -148,7 +155,7 @@ Definition evalc (nested:nested_t) (g:graph) (E:env) (s:shape) (fvs:fvs_t) (ep:l
            (fun rs => Ok (reported rs))
   | CProperty refs =>
       if value_count fvs <? 1 then Ok (true, []) else
-      let pr := recursion_triggers ep (sid s) KProperty in
+      let pr := trig ep (sid s) KProperty in
       bind (mapM (fun r =>
               match lookup E r with
               | None => Err Reportable
@@ -161,7 +168,7 @@ Definition evalc (nested:nested_t) (g:graph) (E:env) (s:shape) (fvs:fvs_t) (ep:l
   | CQualified refs qmin qmax disjoint =>
       if negb disjoint && (value_count fvs <? 1)
          && match qmin with None => true | Some m => (m <? 1)%Z end then Ok (true, []) else
-      let pr := recursion_triggers ep (sid s) KQualified in
+      let pr := trig ep (sid s) KQualified in
       bind (concatM (map (fun r =>
               match lookup E r with
               | None => Err Reportable
@@ -218,12 +225,12 @@ Definition shape_value_nodes (g:graph) (s:shape) (foci:list term) : res fvs_t :=
 (* Shape.validate after focus resolution. top = called by the validator (no evaluation path). *)
 Fixpoint vshape (fuel:nat) (o:eopts) (g:graph) (E:env) (top:bool) (ep:list pentry) (s:shape) (foci:list term)
   {struct fuel} : res cres :=
+  if deact s then Ok (true, []) else
+  if isnil foci then Ok (true, []) else
+  if negb top && (e_max_depth o <=? length ep) then Err TooDeep else
   match fuel with
   | O => Err OutOfFuel
   | S fuel' =>
-    if deact s then Ok (true, []) else
-    if isnil foci then Ok (true, []) else
-    if negb top && (e_max_depth o <=? length ep) then Err TooDeep else
     bind (shape_value_nodes g s foci) (fun fvs =>
       loop o top s
         (fun c => evalc (fun s' v ep' => vshape fuel' o g E false ep' s' [v]) g E s fvs
@@ -281,3 +288,11 @@ Definition validate_sel (o:opts) (sg g:graph) (E:env) (use:list term) : res cres
                       max_depth := max_depth o; focus_filter := [] |} sg g E shapes (Some flt) false []
       end)
   end.
+
+End WithTriggers.
+
+(* the implementation: back-out by ConstraintComponent.recursion_triggers *)
+Definition validate_impl := validate recursion_triggers.
+Definition validate_sel_impl := validate_sel recursion_triggers.
+(* the reference: never back out *)
+Definition no_triggers : trig_t := fun _ _ _ => None.
